@@ -470,14 +470,35 @@ def r4_one_error_list(ctx) -> None:
                         if unparse(a.args[0]) != h.name:
                             r.violation("C07.R4", q, short(a, 80), "handler records a different object than the caught error", f"{fi.module.relpath}:{a.lineno}")
     fd = prog.func("sigma.collection.SigmaCollection.from_dicts")
-    exts = [c for c in walk_no_nested(fd.node) if isinstance(c, ast.Call) and call_name(c) == "errors.extend"]
     fds = [c for c in walk_no_nested(fd.node) if isinstance(c, ast.Call) and call_name(c).endswith(".from_dict")]
-    if len(exts) == len(fds) and all(any(unparse(a) == "collect_errors" for a in c.args) or any(kw.arg == "collect_errors" and unparse(kw.value) == "collect_errors" for kw in c.keywords) for c in fds):
-        r.ok("C07.R4", fd.qual, f"{len(fds)} per-document loads pass collect_errors on and their errors are appended in document order", fd.loc)
-    else:
-        for c in fds:
-            if not (any(unparse(a) == "collect_errors" for a in c.args) or any(kw.arg == "collect_errors" and unparse(kw.value) == "collect_errors" for kw in c.keywords)):
-                r.violation("C07.R4", fd.qual, short(c, 100), "the caller's collect_errors flag is not handed to this per-document load: in collecting mode the collection raises instead of recording the error", f"{fd.module.relpath}:{c.lineno}")
-        if len(exts) != len(fds):
-            r.violation("C07.R4", fd.qual, "errors.extend(parsed_rule.errors)", f"{len(fds)} per-document loads but {len(exts)} error propagations", fd.loc)
+    if not fds:
+        raise AnalysisError(f"{fd.qual}: no per-document load found")
+    # path rule (CFG): from every per-document load, each path to the next document (loop head) or to a return passes
+    # errors.extend(<loaded object>.errors)
+    from ..util import cfg_of
+    cfg = cfg_of(fd)
+    heads = [n.id for n in cfg.nodes if n.kind == "for"] if isinstance(cfg.nodes, list) else [n.id for n in cfg.nodes.values() if n.kind == "for"]
+    rets = [nid for x in walk_no_nested(fd.node) if isinstance(x, ast.Return) for nid in cfg.nodes_of(x)]
+    for c in fds:
+        cloc = f"{fd.module.relpath}:{c.lineno}"
+        if not (any(unparse(a) == "collect_errors" for a in c.args) or any(kw.arg == "collect_errors" and unparse(kw.value) == "collect_errors" for kw in c.keywords)):
+            r.violation("C07.R4", fd.qual, short(c, 100), "the caller's collect_errors flag is not handed to this per-document load: in collecting mode the collection raises instead of recording the error", cloc)
+            continue
+        st = prog.enclosing_stmt(c)
+        tgt = None
+        if isinstance(st, ast.Assign) and len(st.targets) == 1 and isinstance(st.targets[0], ast.Name):
+            tgt = st.targets[0].id
+        elif isinstance(st, ast.AnnAssign) and isinstance(st.target, ast.Name):
+            tgt = st.target.id
+        if tgt is None:
+            r.violation("C07.R4", fd.qual, short(st, 100), "the loaded object is not bound to a name: its errors cannot be propagated", cloc)
+            continue
+        ext_nodes = [nid for x in walk_no_nested(fd.node) if isinstance(x, ast.Call) and call_name(x) == "errors.extend" and x.args and unparse(x.args[0]) == f"{tgt}.errors"
+                     for nid in cfg.node_of_expr(x, prog.parent)]
+        starts = [s_ for nid in cfg.nodes_of(st) for s_ in cfg.nodes[nid].succ]
+        escaped = cfg.reachable(starts, blocked=ext_nodes) & set(heads + rets)
+        if not escaped and ext_nodes:
+            r.ok("C07.R4", fd.qual, f"{short(c, 60)}: collect_errors passed on; every path to the next document passes errors.extend({tgt}.errors)", cloc)
+        else:
+            r.violation("C07.R4", fd.qual, "errors.extend(parsed_rule.errors)", f"the errors of the object loaded by {short(c, 60)} are not propagated on every path to the next document", cloc)
     r.floor("C07.R4", 7)
